@@ -12,12 +12,18 @@ static void *alloc_nofail(size_t n) { void *p = malloc(n); __CPROVER_assume(p !=
 
 #define SLOT(b, t) ((b)->array[(t) & ((b)->array_size - 1)])
 #define RI_SHAPE(b) (POW2((b)->array_size) && (b)->array_size >= 4 && (b)->array_size <= MAXSZ)
-/* ordered buffers, for a token t of the current window [low, low+size) (each slot has exactly one such representative):
-   a valid slot holds the item whose own token is t; t is not low (that one runs, it is never parked) and was handed out already */
-#define RI_AT(b, t) (((b)->is_ordered && (t) - (b)->low_token < (b)->array_size && SLOT(b, t).is_valid) ==> \
-                     (SLOT(b, t).my_token == (t) && (t) != (b)->low_token && SLOT(b, t).my_token_ready && (t) - (b)->low_token < (b)->high_token - (b)->low_token))
+/* The issue frontier GH_lim: every token/ticket handed out so far is < GH_lim.  A buffer that draws the numbers itself (GH_issuer: every unordered serial buffer - one ticket per
+   put - and the buffer of the first serial_in_order filter when items reach it without a token) has GH_lim == high_token; an ordered buffer that is fed with tokens drawn by an
+   earlier serial_in_order filter never touches its own high_token, there GH_lim stands for the high_token of that earlier buffer.
+   Invariant, for a token/ticket t of the current window [low, low+size) (each slot has exactly one such representative): a valid slot holds an item whose number is t; t is not low
+   (that one runs, it is never parked) and was handed out already; in an ordered buffer the item carries t as its token. */
+Token GH_lim; bool GH_issuer;
+#define LIM_OK(b) ((!(b)->is_ordered ==> GH_issuer) && (GH_issuer ==> GH_lim == (b)->high_token) && GH_lim - (b)->low_token <= MAXSZ)
+#define RI_AT(b, t) (((t) - (b)->low_token < (b)->array_size && SLOT(b, t).is_valid) ==> \
+                     ((t) != (b)->low_token && (t) - (b)->low_token < GH_lim - (b)->low_token && ((b)->is_ordered ==> (SLOT(b, t).my_token == (t) && SLOT(b, t).my_token_ready))))
 #define SAME_ITEM(a, b) ((a).is_valid == (b).is_valid && (a).my_token == (b).my_token && (a).my_object == (b).my_object && (a).my_token_ready == (b).my_token_ready)
 
+#ifndef STAGE
 #define CONTRACT_grow \
  __CPROVER_requires(__CPROVER_is_fresh(self, sizeof(*self))) \
  __CPROVER_requires((self->array_size == 0 && self->array == NULL) || (RI_SHAPE(self) && __CPROVER_is_fresh(self->array, self->array_size * sizeof(task_info)))) \
@@ -49,38 +55,52 @@ void h_grow(void) { struct input_buffer *s; size_type m; input_buffer_grow(s, m)
 void h_put(void) {
     struct input_buffer *s = malloc(sizeof(*s)); __CPROVER_assume(s != NULL);
     s->array_size = nondet_size_t(); s->low_token = nondet_size_t(); s->high_token = nondet_size_t(); s->is_ordered = nondet_bool();
+#if defined(PUT_ORDERED)
+    __CPROVER_assume(s->is_ordered);
+#elif defined(PUT_UNORDERED)
+    __CPROVER_assume(!s->is_ordered);
+#endif
     __CPROVER_assume(RI_SHAPE(s));
     s->array = malloc(s->array_size * sizeof(task_info)); __CPROVER_assume(s->array != NULL);
     task_info item; item.my_object = nondet_ptr(); item.my_token = nondet_size_t(); item.my_token_ready = nondet_bool(); item.is_valid = nondet_bool();
     task_info *info = &item;
+    __CPROVER_assume(LIM_OK(s));                                                                         /* at most MAXSZ tokens outstanding */
     __CPROVER_assume(RI_AT(s, GH_t));
-    __CPROVER_assume(s->high_token - s->low_token <= MAXSZ);                                             /* at most MAXSZ tokens outstanding */
-    __CPROVER_assume(!(s->is_ordered && info->my_token_ready) || info->my_token - s->low_token < s->high_token - s->low_token);  /* a token handed out earlier, not yet released */
-    /* each item is put once per filter: its token is not parked already */
-    __CPROVER_assume(!(s->is_ordered && info->my_token_ready && info->my_token == GH_t && GH_t - s->low_token < s->array_size) || !SLOT(s, GH_t).is_valid);
+    if (s->is_ordered) {
+        /* either this is the first serial_in_order filter the items meet (none has a token yet: stage.step "arrives at the next buffer without a token") or every item has one, drawn earlier, not yet released here */
+        __CPROVER_assume(GH_issuer ? !info->my_token_ready : (info->my_token_ready && info->my_token - s->low_token < GH_lim - s->low_token));
+        /* each item is put once per filter: its token is not parked already */
+        __CPROVER_assume(!(info->my_token_ready && info->my_token == GH_t && GH_t - s->low_token < s->array_size) || !SLOT(s, GH_t).is_valid);
+    }
     Token low0 = s->low_token, high0 = s->high_token, size0 = s->array_size; bool ord = s->is_ordered;
     task_info in0 = *info, gh0 = SLOT(s, GH_t);
     bool parked = input_buffer_try_put_token(s, info);
+    if (GH_issuer) GH_lim = s->high_token;
     OBLIGATION(POW2(s->array_size) && s->array_size >= 4 && s->array_size >= size0, "C07.put: the buffer stays a power of two and never shrinks");
     OBLIGATION(s->low_token == low0 && s->is_ordered == ord, "C07.put: low_token is not moved by a put");
     OBLIGATION(info->is_valid && info->my_object == in0.my_object, "C07.put: the item is marked valid and its object is untouched");
+    Token tk;    /* the number under which the item is known to this buffer */
     if (ord) {
         OBLIGATION(info->my_token_ready, "C07.put: an ordered filter gives the item a token");
         OBLIGATION(in0.my_token_ready ? (info->my_token == in0.my_token && s->high_token == high0) : (info->my_token == high0 && s->high_token == high0 + 1),
                    "C07.put: the token is assigned once (next ticket) and never reassigned");
-        OBLIGATION(parked == (info->my_token != low0), "C07.put: the caller runs the item now iff it carries the lowest outstanding token, otherwise it is parked");
-        if (parked) {
-            OBLIGATION(info->my_token - low0 < s->array_size, "C07.put: a parked token lies inside the window (outstanding tokens never share a slot)");
-            OBLIGATION(SLOT(s, info->my_token).is_valid && SLOT(s, info->my_token).my_token == info->my_token && SLOT(s, info->my_token).my_object == info->my_object,
-                       "C07.put: the item is parked, unmodified, in the slot of its own token");
-        }
-        if (GH_t - low0 < size0 && GH_t != info->my_token)
-            OBLIGATION((SLOT(s, GH_t).is_valid != 0) == (gh0.is_valid != 0) && (!gh0.is_valid || (SLOT(s, GH_t).my_token == gh0.my_token && SLOT(s, GH_t).my_object == gh0.my_object)),
-                       "C07.put: every other parked item keeps its slot content (also across a grow)");
+        tk = info->my_token;
     } else {
-        OBLIGATION(s->high_token == high0 + 1 && parked == (high0 != low0), "C07.put: unordered serial filter: tickets are unique and only the lowest one runs now");
+        OBLIGATION(s->high_token == high0 + 1, "C07.put: unordered serial filter: every put draws a ticket of its own (tickets are unique)");
+        OBLIGATION(info->my_token == in0.my_token && info->my_token_ready == in0.my_token_ready, "C07.put: unordered serial filter: the item's ordered token (if it has one) is left alone");
+        tk = high0;
     }
+    OBLIGATION(parked == (tk != low0), "C07.put: the caller runs the item now iff it carries the lowest outstanding token/ticket, otherwise it is parked (one invocation of a serial filter at a time)");
+    if (parked) {
+        OBLIGATION(tk - low0 < s->array_size, "C07.put: a parked token lies inside the window (outstanding tokens never share a slot)");
+        OBLIGATION(SLOT(s, tk).is_valid && SLOT(s, tk).my_object == info->my_object && SLOT(s, tk).my_token == info->my_token && SLOT(s, tk).my_token_ready == info->my_token_ready,
+                   "C07.put: the item is parked, unmodified, in the slot of its own token/ticket");
+    }
+    if (GH_t - low0 < size0 && GH_t != tk)
+        OBLIGATION((SLOT(s, GH_t).is_valid != 0) == (gh0.is_valid != 0) && (!gh0.is_valid || (SLOT(s, GH_t).my_token == gh0.my_token && SLOT(s, GH_t).my_object == gh0.my_object && SLOT(s, GH_t).my_token_ready == gh0.my_token_ready)),
+                   "C07.put: every other parked item keeps its slot content (also across a grow): none is lost or overwritten");
     OBLIGATION(RI_AT(s, GH_t), "C07.put: buffer invariant preserved at an arbitrary token");
+    OBLIGATION((GH_issuer ==> GH_lim == s->high_token) && GH_lim - s->low_token <= MAXSZ + 1, "C07.put: the issue frontier follows high_token");
     VACUITY_END();
 }
 void h_next(void) {
@@ -88,6 +108,7 @@ void h_next(void) {
     __CPROVER_assume(RI_SHAPE(&b));
     b.array = malloc(b.array_size * sizeof(task_info)); __CPROVER_assume(b.array != NULL);
     struct input_buffer *s = &b;
+    __CPROVER_assume(LIM_OK(s) && GH_lim - s->low_token >= 1);                                    /* the caller has just run the item with token/ticket low_token: that number was handed out */
     __CPROVER_assume(RI_AT(s, GH_t) && RI_AT(s, s->low_token + 1) && RI_AT(s, s->low_token));   /* the invariant, instantiated at the ghost token, the next token and low_token */
     Token low0 = s->low_token, high0 = s->high_token, size0 = s->array_size;
     task_info next0 = SLOT(s, low0 + 1), gh0 = SLOT(s, GH_t);
@@ -95,12 +116,12 @@ void h_next(void) {
     input_buffer_try_to_spawn_task_for_next_token(s, 0);
     OBLIGATION(s->low_token == low0 + 1 && s->array_size == size0 && s->high_token == high0, "C07.next: low_token advances by exactly one, nothing else moves");
     OBLIGATION((g_spawned != 0) == (next0.is_valid != 0), "C07.next: a stage task is spawned iff an item was parked under the new low_token");
-    OBLIGATION(!g_spawned || g_spawned_item.my_object == next0.my_object, "C07.next: the released item is the parked one, unmodified");
+    OBLIGATION(!g_spawned || (g_spawned_item.my_object == next0.my_object && g_spawned_item.my_token == next0.my_token && g_spawned_item.my_token_ready == next0.my_token_ready), "C07.next: the released item is the parked one, unmodified");
     OBLIGATION(!(g_spawned && s->is_ordered) || g_spawned_item.my_token == s->low_token, "C07.next: ordered filter: the released item carries exactly the new low_token (items leave in token order)");
     OBLIGATION(!SLOT(s, s->low_token).is_valid, "C07.next: the released slot is invalidated (the item is released once)");
     OBLIGATION(RI_AT(s, GH_t), "C07.next: buffer invariant preserved at an arbitrary token");
     if (((GH_t ^ s->low_token) & (s->array_size - 1)) != 0)
-        OBLIGATION(SLOT(s, GH_t).is_valid == gh0.is_valid && SLOT(s, GH_t).my_object == gh0.my_object && SLOT(s, GH_t).my_token == gh0.my_token, "C07.next: every other parked item is untouched");
+        OBLIGATION(SLOT(s, GH_t).is_valid == gh0.is_valid && SLOT(s, GH_t).my_object == gh0.my_object && SLOT(s, GH_t).my_token == gh0.my_token, "C07.next: every other parked item is untouched (serial_out_of_order: parked items leave one at a time in ticket order, none is lost)");
     VACUITY_END();
 }
 void h_ctor(void) {
@@ -113,3 +134,407 @@ void h_ctor(void) {
     OBLIGATION(t1 == 0 && t2 == 1 && b->high_token == 2, "C07.order: get_ordered_token hands out consecutive, unique tokens");
     VACUITY_END();
 }
+
+#else /* ======================================================= STAGE =======================================================
+   The per-item stage machine (stage_task), the token counter and the construction of the filter chain.  Everything that is executed is extracted text
+   (stage.inc, pipeline.inc, seoi.inc, ib_stage.inc); this section supplies the C types, the stubs of callees outside the pipeline and the ghost state.
+
+   One call of stage_task::execute is one STEP of one task.  The step is verified for an arbitrary task (input-stage task or a task that carries an item at an
+   arbitrary filter of an arbitrary chain: the filter it stands at, F0, has an arbitrary mode, so has its successor F1 if there is one) under arbitrary
+   interference of any number of other tasks on the two shared words pipeline::input_tokens and pipeline::end_of_input (rely/guarantee, SC).
+
+   Ghost census of the token counter (max = max_number_of_live_tokens):
+     PRE   = number of tasks that hold the INPUT ROLE (an input-stage task that has not taken its token yet, or a task that is committed to create/become one)
+     held  = items that hold a token (carried by a task or parked in a buffer),  lost = tokens taken by an input task that then met end of input
+   INV_T:  PRE <= 1;  PRE == 1 ==> input_tokens >= 1  (the token the input role will take is reserved: the counter never underflows and at most max items are in flight);
+           input_tokens + held + lost == max;   while end_of_input is false: lost == 0 and (input_tokens >= 1 ==> PRE == 1) (the pipeline does not run dry of input tasks). */
+typedef struct { int id; } small_object_allocator;
+typedef struct { int dummy; } execution_data;
+typedef struct { long refs; } wait_context;
+struct tgc { int dummy; };
+#include "fnode_struct.inc"   /* filter_node_ptr is a counted pointer: bound to the raw pointer (reference counting is not part of C07) */
+struct stage_task;
+#include "stage_struct.inc"
+#define LOCK_HELD() ((void)0)
+#define MAXTOK (1UL << 62)
+#define SERIAL(f) (((f)->my_filter_mode & filter_is_serial) != 0)
+#define ORDERED(f) (SERIAL(f) && !((f)->my_filter_mode & filter_is_out_of_order))
+#define MAYNULL(f) (((f)->my_filter_mode & filter_may_emit_null) != 0)
+
+/* ---------------- the world of one step ---------------- */
+static struct pipeline g_P; static struct base_filter g_F[3]; static struct input_buffer g_B[3]; static struct tgc g_ctx;
+static struct stage_task g_task, g_newtask[2]; static execution_data g_ed;
+static Token g_max, g_held_others, g_lost; static unsigned char g_pre_others;
+static bool g_me_pre, g_me_holds, g_owe_spawn, g_owe_recycle;
+#define PRE_CNT ((int)g_pre_others + (int)g_me_pre + (int)g_owe_spawn + (int)g_owe_recycle)
+#define INV_T (g_max >= 1 && g_max <= MAXTOK && PRE_CNT <= 1 && (PRE_CNT == 1 ==> g_P.input_tokens >= 1) && g_P.input_tokens <= g_max && g_held_others <= g_max && g_lost <= g_max \
+     && g_P.input_tokens + g_held_others + (Token)g_me_holds + g_lost == g_max && (!g_P.end_of_input ==> (g_lost == 0 && (g_P.input_tokens >= 1 ==> PRE_CNT == 1))))
+static bool g_in_step;   /* interference is switched on inside a step only */
+static void interfere(void) {   /* any number of steps of any number of other tasks on the two shared words: they keep INV_T, cannot touch my own ghost flags, and never lower end_of_input */
+    if (!g_in_step) return;
+    bool eoi0 = g_P.end_of_input;
+    g_P.input_tokens = nondet_ulong(); g_P.end_of_input = nondet_bool(); g_pre_others = nondet_uchar(); g_held_others = nondet_ulong(); g_lost = nondet_ulong();
+    __CPROVER_assume(INV_T); __CPROVER_assume(!eoi0 || g_P.end_of_input);
+}
+/* per-step log */
+static bool g_at_start0; static task_info g_item0;
+static int g_calls, g_next_calls, g_put_calls, g_take_calls, g_give_calls, g_spawn_calls, g_new_input, g_new_item, g_delete_calls, g_destroyed, g_reserved, g_released;
+static struct base_filter *g_call_f; static void *g_call_arg, *g_call_ret; static bool g_stopped, g_tls_end, g_tls0, g_eoi_seen, g_eoi_raised;
+static struct input_buffer *g_next_buf, *g_put_buf; static int g_next_at_calls; static struct base_filter *g_next_spawner_filter;
+static task_info g_put_in, g_put_item; static bool g_put_parked, g_ready_at_take, g_pre_at_call, g_pre_at_ticket; static Token g_avail_seen;
+static struct stage_task *g_spawned, *g_deleted; static struct base_filter *g_filter_at_delete; static void *g_object_at_delete;
+static int g_ticket_calls; static Token g_high0;
+
+#define ATOMIC_FETCH_SUB_AT(site, x, v) ({ interfere(); Token old_ = (x); \
+      OBLIGATION(g_me_pre, "C07.tokens: a token is taken only by the task that holds the input role (one taker at a time, each item takes one token)"); \
+      OBLIGATION(old_ >= 1, "C07.tokens: the free-token counter never underflows (no more than max_number_of_live_tokens items in flight)"); \
+      (x) = old_ - (Token)(v); g_take_calls++; g_me_pre = false; g_me_holds = true; g_owe_spawn = (old_ > 1); g_ready_at_take = self->base.my_token_ready; \
+      __CPROVER_assert(INV_T, "C07.tokens: guarantee: fetch_sub keeps the token census"); old_; })
+#define ATOMIC_FETCH_ADD_AT(site, x, v) ({ interfere(); Token old_ = (x); \
+      OBLIGATION(g_me_holds, "C07.tokens: a token is given back only for an item that holds one, once"); \
+      (x) = old_ + (Token)(v); g_give_calls++; g_me_holds = false; g_owe_recycle = (old_ == 0); g_avail_seen = old_; \
+      __CPROVER_assert(INV_T, "C07.tokens: guarantee: fetch_add keeps the token census"); old_; })
+#define ATOMIC_LOAD_AT(site, x) ({ interfere(); bool v_ = (x); if (v_) g_eoi_seen = true; v_; })
+#define ATOMIC_STORE_AT(site, x, v) ({ interfere(); OBLIGATION((v) == true, "C07.end: end_of_input is only ever raised, never lowered"); (x) = (v); g_eoi_raised = true; \
+      __CPROVER_assert(INV_T, "C07.tokens: guarantee: raising end_of_input keeps the token census"); })
+
+static void STUB_wait_init(wait_context *w, long n) { w->refs = n; }
+static void STUB_wait_reserve(wait_context *w) { w->refs++; g_reserved++; }
+static void STUB_wait_release(wait_context *w) { w->refs--; g_released++; }
+static void STUB_filter_finalize(struct base_filter *f, void *obj) { g_destroyed++; }
+static bool STUB_my_tls_end_of_input(struct input_buffer *b) { return g_tls_end; }
+static void STUB_set_my_tls_end_of_input(struct input_buffer *b) { g_tls_end = true; }
+static bool STUB_tls_allocated(struct input_buffer *b) { return true; }
+#include "seoi.inc"
+#include "ib_got.inc"
+static Token STUB_get_ordered_token(struct input_buffer *b) { g_ticket_calls++; g_pre_at_ticket = g_me_pre; return input_buffer_get_ordered_token(b); }
+
+#include "flow_control.inc"
+/* The user bodies.  An input body may call flow_control::stop() (is_pipeline_stopped = true). */
+static int g_body_calls, g_destroy_calls, g_destroy_at; static void *g_body_arg, *g_body_ret, *g_destroy_arg; static bool g_body_stops;
+static void *STUB_body(struct base_filter *f, void *item) { g_body_calls++; g_body_arg = item; g_body_ret = nondet_ptr(); return g_body_ret; }
+static void *STUB_input_body(struct base_filter *f, flow_control *fc) { g_body_calls++; if (nondet_bool()) { fc->is_pipeline_stopped = true; g_body_stops = true; } g_body_ret = nondet_ptr(); return g_body_ret; }
+static void STUB_destroy_token(struct base_filter *f, void *tok) { g_destroy_calls++; g_destroy_arg = tok; g_destroy_at = g_body_calls; }
+#include "filters.inc"
+/* A filter invocation (the virtual call (*my_filter)(item)).  The input filter is the REAL concrete_filter<void,Output,Body>::operator() when the filter may emit null items and the
+   real concrete_filter<void,void,Body>::operator() otherwise (the constructor of the former sets filter_may_emit_null, checked at extraction); later filters return anything. */
+static void *STUB_filter_call(struct base_filter *f, void *obj) {
+    g_calls++; g_call_f = f; g_call_arg = obj; g_pre_at_call = g_me_pre && !g_owe_spawn;
+    void *r;
+    if (g_at_start0) { r = MAYNULL(f) ? cf_in_call(f, obj) : cf_inout_call(f, obj); g_stopped = g_body_stops; }
+    else r = nondet_ptr();
+    g_call_ret = r; return r;
+}
+/* input_buffer::try_put_token, by the post-conditions that job ib.try_put_token proves: valid; ordered: a token is drawn once (next ticket); unordered: a ticket per put;
+   the caller runs now iff its token/ticket is the lowest outstanding one, otherwise the item is parked */
+static bool STUB_try_put_token(struct input_buffer *b, task_info *info) {
+    g_put_calls++; g_put_buf = b; g_put_in = *info;
+    info->is_valid = true;
+    Token tk;
+    if (b->is_ordered) { if (!info->my_token_ready) { info->my_token = b->high_token; b->high_token = b->high_token + 1; info->my_token_ready = true; } tk = info->my_token; }
+    else { tk = b->high_token; b->high_token = b->high_token + 1; }
+    g_put_parked = (tk != b->low_token); g_put_item = *info;
+    return g_put_parked;
+}
+/* input_buffer::try_to_spawn_task_for_next_token, by the post-condition of ib.next_token (low_token advances by one); what it does with the released item is job stage.release */
+static void STUB_try_to_spawn_task_for_next_token(struct input_buffer *b, struct stage_task *sp, execution_data *ed) {
+    g_next_calls++; g_next_buf = b; g_next_at_calls = g_calls; g_next_spawner_filter = sp->my_filter; b->low_token = b->low_token + 1;
+}
+static struct stage_task *NEW_input_stage_task(execution_data *ed, struct pipeline *p, small_object_allocator *a);
+static struct stage_task *NEW_item_stage_task(execution_data *ed, struct pipeline *p, struct base_filter *f, task_info *info, small_object_allocator *a);
+static void STUB_spawn(struct stage_task *t, struct tgc *ctx) {
+    g_spawn_calls++; g_spawned = t;
+    if (t != NULL && t->my_at_start) {   /* a new input-stage task */
+        OBLIGATION(g_owe_spawn, "C07.tokens: a new input-stage task is started only by the task that just took a token and found more free ones");
+        if (g_owe_spawn) { g_owe_spawn = false; g_pre_others = 1; }
+    }
+}
+static void STUB_delete_object(small_object_allocator *a, struct stage_task *t, execution_data *ed);
+#include "stage.inc"
+#include "ib_stage.inc"
+static struct stage_task *NEW_input_stage_task(execution_data *ed, struct pipeline *p, small_object_allocator *a) {
+    struct stage_task *t = &g_newtask[g_new_input + g_new_item]; g_new_input++; stage_task_ctor_input(t, p, a); return t; }
+static struct stage_task *NEW_item_stage_task(execution_data *ed, struct pipeline *p, struct base_filter *f, task_info *info, small_object_allocator *a) {
+    struct stage_task *t = &g_newtask[g_new_input + g_new_item]; g_new_item++; stage_task_ctor_item(t, p, f, info, a); return t; }
+static void STUB_delete_object(small_object_allocator *a, struct stage_task *t, execution_data *ed) {
+    g_delete_calls++; g_deleted = t; g_filter_at_delete = t->my_filter; g_object_at_delete = t->base.my_object; stage_task_dtor(t); }
+
+static void mk_world(bool at_start) {
+    g_max = nondet_ulong(); g_P.input_tokens = nondet_ulong(); g_P.end_of_input = nondet_bool(); g_P.my_context = &g_ctx; g_P.wait_ctx.refs = nondet_long(); __CPROVER_assume(g_P.wait_ctx.refs >= 1 && g_P.wait_ctx.refs < (1L << 40));
+    g_pre_others = nondet_uchar(); g_held_others = nondet_ulong(); g_lost = nondet_ulong();
+    g_me_pre = at_start; g_me_holds = !at_start; g_owe_spawn = false; g_owe_recycle = false;
+    __CPROVER_assume(INV_T);
+    for (int i = 0; i < 3; i++) {
+        g_F[i].my_filter_mode = nondet_unsigned(); __CPROVER_assume(g_F[i].my_filter_mode <= 7u); g_F[i].my_pipeline = &g_P; g_F[i].my_input_buffer = NULL;
+        g_B[i].array = NULL; g_B[i].array_size = 0; g_B[i].low_token = nondet_ulong(); g_B[i].high_token = nondet_ulong(); g_B[i].is_ordered = ORDERED(&g_F[i]);
+    }
+    /* chain invariants established by pipeline::add_filter (job chain.add_filter): a serial filter has a buffer of its own kind; a parallel first filter that may emit null has one (for the TLS flag) */
+    g_P.first_filter = at_start ? &g_F[0] : &g_F[2];
+    for (int i = 0; i < 3; i++) if (SERIAL(&g_F[i]) || (g_P.first_filter == &g_F[i] && MAYNULL(&g_F[i]))) g_F[i].my_input_buffer = &g_B[i];
+    g_F[0].next_filter_in_pipeline = nondet_bool() ? &g_F[1] : NULL;
+    g_F[1].next_filter_in_pipeline = NULL; g_F[2].next_filter_in_pipeline = &g_F[0];
+    g_tls_end = g_tls0 = nondet_bool();
+}
+static void mk_task(struct stage_task *t, bool at_start) {
+    t->my_pipeline = &g_P; t->my_filter = &g_F[0]; t->my_at_start = at_start; t->m_allocator.id = 7;
+    t->base.my_object = nondet_ptr(); t->base.my_token = nondet_ulong(); t->base.my_token_ready = nondet_bool(); t->base.is_valid = nondet_bool();
+    if (at_start)   /* established by the input constructor and by reset() (jobs stage.ctor, stage.step[recycle]) */
+        __CPROVER_assume(t->base.my_object == NULL && !t->base.my_token_ready);
+    if (!at_start && ORDERED(&g_F[0]) )   /* the task was admitted to the ordered filter it stands at: its token is the buffer's low_token */
+        __CPROVER_assume(t->base.my_token_ready && t->base.my_token == g_B[0].low_token);
+}
+
+#ifdef STEP
+/* ---------------- one step of stage_task::execute (-> execute_filter, try_spawn_stage_task, reset, finalize, ~stage_task) ---------------- */
+void h_step(void) {
+    bool at_start = nondet_bool();
+    mk_world(at_start); struct stage_task *self = &g_task; mk_task(self, at_start);
+#if defined(ONLY_START_SERIAL)          /* the three jobs partition the domain: input-stage task at a serial / parallel input filter, task carrying an item */
+    __CPROVER_assume(at_start && SERIAL(&g_F[0]));
+#elif defined(ONLY_START_PARALLEL)
+    __CPROVER_assume(at_start && !SERIAL(&g_F[0]));
+#elif defined(ONLY_MID)
+    __CPROVER_assume(!at_start);
+#endif
+    g_at_start0 = at_start; g_item0 = self->base; g_high0 = g_B[0].high_token;
+    struct base_filter *F0 = &g_F[0], *F1 = g_F[0].next_filter_in_pipeline; Token low0 = g_B[0].low_token;
+    g_in_step = true;
+    struct stage_task *res = stage_task_execute(self, &g_ed);
+    g_in_step = false;
+    bool ret = (res != NULL);
+    OBLIGATION(res == NULL || res == self, "C07.stage: execute returns the task itself (to be run again) or nothing");
+    bool cont = ret && !self->my_at_start, input_again = ret && self->my_at_start;
+    bool parked = !ret && g_put_calls == 1 && g_put_parked, left = g_give_calls >= 1, ended = !ret && !parked && !left;
+    /* ---- every item passes every filter exactly once, in chain order ---- */
+    OBLIGATION(g_calls <= 1, "C07.stage: one step of a task invokes at most one filter");
+    if (g_calls == 1) {
+        OBLIGATION(g_call_f == F0 && g_call_arg == g_item0.my_object, "C07.stage: the filter invoked is the one the item stands at, on the item's current object");
+    } else {
+        OBLIGATION(at_start && !ret && g_eoi_seen && g_take_calls == 0 && g_put_calls == 0, "C07.stage: only an input-stage task that observed end of input runs no filter; it takes no token and ends");
+    }
+    if (g_stopped) OBLIGATION(!ret && g_put_calls == 0 && g_give_calls == 0, "C07.end: when the input filter signals the end, its (null) result is not passed on as an item and the task ends");
+    if (g_stopped) OBLIGATION(g_P.end_of_input, "C07.end: when the input filter signals the end, the pipeline-wide end_of_input flag is up before the task ends (no further input-stage task will invoke the filter, none is started)");
+    if (at_start && g_calls == 1 && g_call_ret != NULL)
+        OBLIGATION(!ended, "C07.stage: an item returned by the input filter is never dropped");
+    if (g_calls == 1 && !ended) {   /* the item exists and has passed F0 */
+        if (F1 != NULL) {
+            OBLIGATION(!left && !input_again, "C07.stage: an item that has later filters to pass neither leaves the pipeline nor is forgotten");
+            OBLIGATION(cont != parked, "C07.stage: after a filter the item is either carried on by this task or parked in the next filter's buffer - exactly one of the two");
+            if (SERIAL(F1)) {
+                OBLIGATION(g_put_calls == 1 && g_put_buf == F1->my_input_buffer, "C07.stage: the item is offered exactly once to the buffer of the next filter when that filter is serial");
+                OBLIGATION(g_put_in.my_object == g_call_ret, "C07.stage: what is offered to the next filter is the output of the filter just run");
+                if (cont) OBLIGATION(!g_put_parked, "C07.stage: the task goes on into a serial filter only if the buffer granted it the turn (lowest outstanding token)");
+            }
+            if (cont) OBLIGATION(self->my_filter == F1 && self->base.my_object == g_call_ret, "C07.stage: the task goes on at the NEXT filter of the chain with the output of the filter just run (no filter skipped or repeated)");
+            if (parked) OBLIGATION(g_destroyed == 0, "C07.stage: the task that parked an item lets go of it: the parked object is not destroyed with the task");
+        } else if (at_start && SERIAL(F0) && input_again && g_take_calls == 0) {
+            OBLIGATION(g_give_calls == 0, "C07.stage: in a pipeline of one serial filter the input task may pass the item through its only filter without taking a token; then it gives none back");
+        } else {
+            OBLIGATION(left && g_give_calls == 1 && g_put_calls == 0 && !cont, "C07.stage: an item that passed the last filter leaves the pipeline: its token is given back exactly once");
+        }
+    }
+    OBLIGATION(g_destroyed == 0, "C07.stage: no item is destroyed by a task that ends normally (it was parked, has left the pipeline, or there was none)");
+    /* ---- serial filters: one invocation at a time, the turn is passed on exactly once ---- */
+    if (!at_start && SERIAL(F0)) {
+        OBLIGATION(g_next_calls == 1 && g_next_buf == F0->my_input_buffer, "C07.serial: after running a serial filter the task passes the filter's turn on exactly once (next token released)");
+        OBLIGATION(g_next_at_calls == 1, "C07.serial: the turn is passed on only after the filter invocation has returned (never two invocations at once)");
+        OBLIGATION(g_next_spawner_filter == F0, "C07.serial: an item released from the buffer is restarted at the filter whose buffer released it");
+    }
+    OBLIGATION(g_next_calls <= 1 && (g_next_calls == 0 || g_next_buf == F0->my_input_buffer), "C07.serial: a task never passes on the turn of a filter it did not run");
+    if (at_start && SERIAL(F0) && g_calls == 1)
+        OBLIGATION(g_pre_at_call, "C07.serial: a serial input filter is invoked only by the one task holding the input role, before that role is handed on");
+    /* ---- ordered token ---- */
+    if (at_start && ORDERED(F0) && g_calls == 1 && !ended) {
+        OBLIGATION(g_ticket_calls == 1 && g_B[0].high_token == g_high0 + 1, "C07.order: a serial_in_order input filter draws exactly one ticket per item");
+        OBLIGATION(g_pre_at_ticket, "C07.order: the ticket is drawn while the task still holds the input role, so tickets follow the order in which the filter processed the items");
+        if (cont || parked) OBLIGATION((cont ? self->base.my_token : g_put_item.my_token) == g_high0 && (cont ? self->base.my_token_ready : g_put_item.my_token_ready), "C07.order: the item carries that ticket as its token");
+    } else {
+        OBLIGATION(g_ticket_calls == 0 || (at_start && ended), "C07.order: tickets are drawn only for new items of the input filter (a gap in the ticket sequence would stall every later ordered filter; a ticket drawn at the very end of input is the last one and harms nothing)");
+    }
+    if (g_put_calls == 1)
+        OBLIGATION(g_put_in.my_token_ready == (g_item0.my_token_ready || (at_start && ORDERED(F0))) && (!g_item0.my_token_ready || g_put_in.my_token == g_item0.my_token),
+                   "C07.order: the task never changes a token once assigned, and an item that has not passed an ordered filter arrives at the next buffer without a token");
+    if (cont && g_item0.my_token_ready) OBLIGATION(self->base.my_token_ready && self->base.my_token == g_item0.my_token, "C07.order: the token assigned by the first serial_in_order filter stays with the item");
+    /* ---- token accounting ---- */
+    OBLIGATION(g_take_calls <= 1 && g_give_calls <= 1, "C07.tokens: at most one token is taken and at most one given back per step");
+    if (cont || parked) OBLIGATION(g_me_holds, "C07.tokens: an item that goes on past the input filter holds a token");
+    OBLIGATION(!g_owe_spawn, "C07.tokens: a task that took a token while more were free has started the next input-stage task (the pipeline keeps reading input)");
+    if (input_again) OBLIGATION(g_me_pre || g_owe_recycle, "C07.tokens: a task becomes the input-stage task only if it already was (one-filter pipeline) or it returned its token finding none free");
+    else {
+        if (g_owe_recycle) OBLIGATION(g_eoi_seen, "C07.end: a task that returned its token and found none free gives up reading input only because end of input was signalled");
+        if (g_me_pre) OBLIGATION(!ret && (g_eoi_seen || g_eoi_raised || g_P.end_of_input), "C07.end: the input-stage task ends only after end of input was signalled");
+    }
+    if (input_again) {
+        OBLIGATION(self->my_filter == g_P.first_filter && self->base.my_object == NULL && !self->base.my_token_ready,
+                   "C07.stage: a recycled task is a fresh input-stage task: at the first filter, no item, no token");
+        if (g_owe_recycle) OBLIGATION(g_avail_seen == 0, "C07.tokens: a task recycles itself as input-stage task only when it found no free token (no other task holds the input role)");
+    }
+    if (g_eoi_raised) {
+        OBLIGATION(at_start && g_calls == 1 && g_call_ret == NULL, "C07.end: end_of_input is raised only by the input stage and only when the input filter returned no item");
+        OBLIGATION(g_stopped || g_eoi_seen || g_tls0 || !MAYNULL(F0), "C07.end: end_of_input is raised only if the input filter signalled the end (flow_control::stop) or cannot emit null items");
+    }
+    /* census after the step (the dispositions above are exhaustive: INV_T must hold again) */
+    if (input_again) { g_me_pre = true; g_owe_recycle = false; } else { g_owe_recycle = false; g_me_pre = false; }
+    if (parked && g_me_holds) { g_me_holds = false; g_held_others++; }
+    if (ended && g_me_holds) { g_me_holds = false; g_lost++; }
+    if (left) g_me_holds = false;
+    OBLIGATION(!g_me_holds || cont, "C07.tokens: a token stays with the item: only a task that carries an item on keeps holding one");
+    OBLIGATION(INV_T, "C07.tokens: the token census holds again after the step (free + held + lost == max, at most one input role, input never runs dry before end of input)");
+    /* ---- wait context: the call returns only when no task is left ---- */
+    OBLIGATION(ret ? (g_delete_calls == 0 && g_released == 0) : (g_delete_calls == 1 && g_deleted == self && g_released == 1), "C07.end: a task that ends is destroyed exactly once and releases the pipeline's wait exactly once; a task that goes on does neither");
+    OBLIGATION(g_reserved == g_new_input + g_new_item && g_spawn_calls == g_new_input + g_new_item, "C07.end: every task created reserves the pipeline's wait once and is spawned once");
+    if (g_new_input == 1) OBLIGATION(g_spawned->my_at_start && g_spawned->my_filter == g_P.first_filter && g_spawned->my_pipeline == &g_P && g_spawned->base.my_object == NULL && !g_spawned->base.my_token_ready,
+                                     "C07.stage: a new input-stage task starts at the first filter of the same pipeline with no item and no token");
+    OBLIGATION(g_new_input <= 1 && g_new_item == 0, "C07.tokens: a step starts at most one new input-stage task");
+    VACUITY_END();
+}
+#endif
+#ifdef RELEASE
+/* ---------------- input_buffer::try_to_spawn_task_for_next_token<stage_task> -> stage_task::spawn_stage_task -> stage_task(pipeline&, filter, info, alloc) ---------------- */
+void h_release(void) {
+    mk_world(false); struct stage_task *sp = &g_task; mk_task(sp, false);
+    struct base_filter *F0 = &g_F[0]; struct input_buffer *b = &g_B[0];
+    __CPROVER_assume(SERIAL(F0));                                   /* the spawner has just run the serial filter F0 and still stands at it (stage.step: "restarted at the filter whose buffer released it") */
+    b->array_size = nondet_size_t(); __CPROVER_assume(RI_SHAPE(b));
+    b->array = malloc(b->array_size * sizeof(task_info)); __CPROVER_assume(b->array != NULL);
+    Token low0 = b->low_token, high0 = b->high_token; task_info next0 = SLOT(b, low0 + 1), gh0 = SLOT(b, GH_t);
+    struct stage_task sp0 = *sp; long refs0 = g_P.wait_ctx.refs;
+    input_buffer_try_to_spawn_task_for_next_token(b, sp, &g_ed);
+    OBLIGATION(b->low_token == low0 + 1 && b->high_token == high0, "C07.release: the turn moves to exactly the next token");
+    OBLIGATION(!SLOT(b, low0 + 1).is_valid, "C07.release: the slot of the released token is emptied (an item is released once)");
+    if (next0.is_valid) {
+        OBLIGATION(g_new_item == 1 && g_new_input == 0 && g_spawn_calls == 1 && g_spawned == &g_newtask[0], "C07.release: exactly one task is created and spawned for the item parked under the new low token");
+        struct stage_task *c = &g_newtask[0];
+        OBLIGATION(c->base.my_object == next0.my_object && c->base.my_token == next0.my_token && c->base.my_token_ready == next0.my_token_ready, "C07.release: the new task carries the parked item unmodified (object and token)");
+        OBLIGATION(c->my_filter == F0 && !c->my_at_start && c->my_pipeline == &g_P, "C07.release: the released item is restarted at the filter whose buffer held it, as a task that has read its input (it will run exactly that filter next)");
+        OBLIGATION(g_reserved == 1 && g_P.wait_ctx.refs == refs0 + 1, "C07.end: the new task reserves the pipeline's wait exactly once (the call cannot return while the item is in flight)");
+    } else {
+        OBLIGATION(g_new_item == 0 && g_new_input == 0 && g_spawn_calls == 0 && g_reserved == 0, "C07.release: nothing is spawned when no item is parked under the new low token");
+    }
+    OBLIGATION(sp->my_filter == sp0.my_filter && sp->base.my_object == sp0.base.my_object && sp->base.my_token == sp0.base.my_token && sp->my_at_start == sp0.my_at_start, "C07.release: the releasing task's own item is untouched");
+    if (((GH_t ^ b->low_token) & (b->array_size - 1)) != 0)
+        OBLIGATION(SLOT(b, GH_t).is_valid == gh0.is_valid && SLOT(b, GH_t).my_object == gh0.my_object && SLOT(b, GH_t).my_token == gh0.my_token, "C07.release: every other parked item stays parked, untouched");
+    VACUITY_END();
+}
+#endif
+
+#ifdef CANCEL
+/* ---------------- stage_task::cancel -> finalize -> ~stage_task (task_group_context cancelled): the wait is still released exactly once ---------------- */
+void h_cancel(void) {
+    bool at_start = nondet_bool(); mk_world(at_start); struct stage_task *self = &g_task; mk_task(self, at_start);
+    if (nondet_bool()) self->my_filter = NULL;
+    struct base_filter *f0 = self->my_filter; void *o0 = self->base.my_object;
+    struct stage_task *res = stage_task_cancel(self, &g_ed);
+    OBLIGATION(res == NULL && g_delete_calls == 1 && g_deleted == self && g_released == 1 && g_reserved == 0, "C07.end: a cancelled task is destroyed exactly once and releases the pipeline's wait exactly once");
+    VACUITY_END();
+}
+#endif
+
+#ifdef CHAIN
+/* ---------------- pipeline::pipeline, add_filter, fill_pipeline, parallel_pipeline(): the filter chain and the initial state ---------------- */
+static struct input_buffer g_newbuf[2]; static int g_new_buffers, g_tls_created; static struct input_buffer *g_tls_buf;
+/* input_buffer::input_buffer(ordered), by the post-condition of job ib.ctor: empty ring of 4, tokens start at 0, the mode is the argument */
+static struct input_buffer *NEW_input_buffer(bool ordered) { struct input_buffer *b = &g_newbuf[g_new_buffers++]; b->array = NULL; b->array_size = 4; b->low_token = 0; b->high_token = 0; b->is_ordered = ordered; return b; }
+static void STUB_create_my_tls(struct input_buffer *b) { g_tls_created++; g_tls_buf = b; }
+static struct base_filter g_created[3]; static int g_create_calls, g_rec_calls; static struct filter_node *g_create_node, *g_rec_arg[2]; static struct base_filter *g_last_at_rec[2];
+static struct base_filter *fresh_filter(void) { struct base_filter *f = &g_created[g_create_calls + g_rec_calls]; f->my_filter_mode = nondet_unsigned(); __CPROVER_assume(f->my_filter_mode <= 7u);
+    f->next_filter_in_pipeline = base_filter_not_in_pipeline(); f->my_input_buffer = NULL; f->my_pipeline = NULL; return f; }
+static struct base_filter *STUB_create_filter(struct filter_node *n) { struct base_filter *f = fresh_filter(); g_create_node = n; g_create_calls++; return f; }
+static void pipeline_add_filter(struct pipeline *self, struct base_filter *new_fitler);
+/* the recursive call of fill_pipeline on a subtree (induction hypothesis: a subtree appends its own filters, at least one, at the end of the chain) */
+static void REC_fill_pipeline(struct pipeline *self, struct filter_node *n) { g_last_at_rec[g_rec_calls] = self->last_filter; g_rec_arg[g_rec_calls] = n; struct base_filter *f = fresh_filter(); g_rec_calls++; pipeline_add_filter(self, f); }
+static struct stage_task *NEW_first_stage_task(struct pipeline *p, small_object_allocator *a) { struct stage_task *t = &g_newtask[g_new_input]; g_new_input++; stage_task_ctor_input(t, p, a); return t; }
+static int g_wait_calls; static size_t g_max_token; static struct filter_node *g_root;
+static void STUB_execute_and_wait(struct stage_task *st, struct tgc *c1, wait_context *w, struct tgc *c2) {
+    g_wait_calls++;
+    struct pipeline *p = st->my_pipeline;
+    OBLIGATION(g_new_input == 1 && st == &g_newtask[0] && st->my_at_start && st->base.my_object == NULL && !st->base.my_token_ready, "C07.start: the pipeline starts with exactly one task: an input-stage task without item or token");
+    OBLIGATION(p->first_filter != NULL && st->my_filter == p->first_filter && (g_rec_calls + g_create_calls) >= 1, "C07.start: the filter chain is complete before the first task is created, and that task stands at the first filter");
+    OBLIGATION(w == &p->wait_ctx && w->refs == 1 && g_reserved == 1, "C07.end: the caller waits on the pipeline's wait context, which counts exactly the one live task");
+    OBLIGATION(p->input_tokens == (Token)g_max_token && !p->end_of_input, "C07.tokens: at the start all max_number_of_live_tokens tokens are free and end of input is not signalled (the token census holds with the first task in the input role)");
+}
+#include "pipeline.inc"
+static void mk_chain(struct pipeline *P, struct base_filter *A, struct base_filter *Bf, bool *empty) {
+    P->my_context = &g_ctx; P->input_tokens = nondet_ulong(); P->end_of_input = false; P->wait_ctx.refs = 0;
+    *empty = nondet_bool();
+    A->my_filter_mode = nondet_unsigned(); Bf->my_filter_mode = nondet_unsigned(); A->my_input_buffer = NULL; Bf->my_input_buffer = NULL; A->my_pipeline = P; Bf->my_pipeline = P;
+    if (*empty) { P->first_filter = NULL; P->last_filter = NULL; }
+    else { P->first_filter = A; P->last_filter = nondet_bool() ? A : Bf; A->next_filter_in_pipeline = (P->last_filter == A) ? NULL : (nondet_bool() ? Bf : (struct base_filter *)&g_F[2]); Bf->next_filter_in_pipeline = NULL; }
+}
+void h_add_filter(void) {
+    struct pipeline P; struct base_filter A, Bf, N; bool empty; mk_chain(&P, &A, &Bf, &empty);
+    N.my_filter_mode = nondet_unsigned(); __CPROVER_assume(N.my_filter_mode <= 7u); N.next_filter_in_pipeline = base_filter_not_in_pipeline(); N.my_input_buffer = NULL; N.my_pipeline = NULL;
+    struct base_filter *first0 = P.first_filter, *last0 = P.last_filter, *anext0 = A.next_filter_in_pipeline;
+    pipeline_add_filter(&P, &N);
+    OBLIGATION(P.last_filter == &N && N.next_filter_in_pipeline == NULL, "C07.chain: the added filter becomes the end of the chain");
+    if (empty) OBLIGATION(P.first_filter == &N, "C07.chain: the first filter added is the first filter of the pipeline");
+    else {
+        OBLIGATION(P.first_filter == first0 && last0->next_filter_in_pipeline == &N, "C07.chain: a later filter is linked directly behind the previous last one; the first filter stays (left-to-right order, each filter once)");
+        if (last0 != &A) OBLIGATION(A.next_filter_in_pipeline == anext0, "C07.chain: the links between earlier filters are untouched");
+    }
+    OBLIGATION(N.my_pipeline == &P, "C07.chain: the filter knows its pipeline (set_end_of_input reaches the right flag)");
+    if (SERIAL(&N)) OBLIGATION(g_new_buffers == 1 && N.my_input_buffer == &g_newbuf[0] && N.my_input_buffer->is_ordered == ORDERED(&N), "C07.chain: every serial filter gets a token buffer of its own, ordered exactly when the filter is serial_in_order");
+    else if (P.first_filter == &N && MAYNULL(&N)) OBLIGATION(g_new_buffers == 1 && N.my_input_buffer == &g_newbuf[0] && !N.my_input_buffer->is_ordered && g_tls_created == 1 && g_tls_buf == N.my_input_buffer, "C07.chain: a parallel input filter that may emit null items gets a buffer with the thread-local end-of-input flag");
+    VACUITY_END();
+}
+void h_fill(void) {
+    struct pipeline P; struct base_filter A, Bf; bool empty; mk_chain(&P, &A, &Bf, &empty);
+    struct filter_node root, L, R; bool inner = nondet_bool(); root.left = inner ? &L : NULL; root.right = inner ? &R : NULL;   /* operator& builds nodes with two children, make_filter builds leaves */
+    struct base_filter *last0 = P.last_filter;
+    pipeline_fill_pipeline(&P, &root);
+    if (inner) {
+        OBLIGATION(g_rec_calls == 2 && g_rec_arg[0] == &L && g_rec_arg[1] == &R, "C07.chain: an inner node of the filter expression contributes the filters of its left operand first, then those of its right operand, each subtree exactly once");
+        OBLIGATION(g_create_calls == 0 && g_last_at_rec[0] == last0 && g_last_at_rec[1] == &g_created[0], "C07.chain: an inner node adds no filter of its own, and nothing comes between the two subtrees");
+    } else {
+        OBLIGATION(g_rec_calls == 0 && g_create_calls == 1 && g_create_node == &root, "C07.chain: a leaf contributes exactly one filter, the one it creates");
+        OBLIGATION(P.last_filter == &g_created[0] && (empty ? P.first_filter == &g_created[0] : last0->next_filter_in_pipeline == &g_created[0]), "C07.chain: the leaf's filter is appended at the end of the chain built so far");
+    }
+    VACUITY_END();
+}
+void h_start(void) {
+    struct filter_node root, L, R; bool inner = nondet_bool(); root.left = inner ? &L : NULL; root.right = inner ? &R : NULL; g_root = &root;
+    g_max_token = nondet_size_t(); __CPROVER_assume(g_max_token >= 1);      /* documented precondition of parallel_pipeline: max_number_of_live_tokens > 0 */
+    r1_parallel_pipeline(&g_ctx, g_max_token, &root);
+    OBLIGATION(g_wait_calls == 1, "C07.end: parallel_pipeline returns only through the wait for its tasks");
+    VACUITY_END();
+}
+#endif
+#ifdef FILTERS
+/* ---------------- concrete_filter<...>::operator(): what one filter invocation does with the item and how the end of input is signalled ---------------- */
+void h_cf(void) {
+    mk_world(true); struct base_filter *F = &g_F[0]; void *in = nondet_ptr(); int v = nondet_int(); __CPROVER_assume(0 <= v && v < 4);
+    bool eoi0 = g_P.end_of_input, tls0 = g_tls_end;
+    if (v == 0) { void *r = cf_mid_call(F, in);
+        OBLIGATION(g_body_calls == 1 && g_body_arg == in, "C07.filter: one invocation of a filter runs its body exactly once, on the item it was handed");
+        OBLIGATION(r == g_body_ret, "C07.filter: the body's result is the item handed to the next filter");
+        OBLIGATION(g_destroy_calls == 0 || g_destroy_at == 1, "C07.filter: the input item is not released before the body has run on it");
+        OBLIGATION(g_P.end_of_input == eoi0 && g_tls_end == tls0, "C07.filter: a filter that is not the input filter never signals end of input");
+    } else if (v == 1) { void *r = cf_out_call(F, in);
+        OBLIGATION(g_body_calls == 1 && g_body_arg == in && r == NULL, "C07.filter: the last filter runs its body exactly once on the item and emits nothing");
+        OBLIGATION(g_P.end_of_input == eoi0 && g_tls_end == tls0, "C07.filter: the last filter never signals end of input");
+    } else if (v == 2) { __CPROVER_assume(MAYNULL(F));     /* set by the constructor of this specialisation */
+        void *r = cf_in_call(F, in);
+        OBLIGATION(g_body_calls == 1, "C07.filter: one invocation of the input filter runs its body exactly once");
+        if (g_body_stops) OBLIGATION(r == NULL && (SERIAL(F) ? g_P.end_of_input : g_tls_end), "C07.end: when the body calls flow_control::stop() the filter returns no item and signals the end (pipeline flag for a serial input filter, thread flag for a parallel one)");
+        else OBLIGATION(r == g_body_ret && g_P.end_of_input == eoi0 && g_tls_end == tls0, "C07.end: without flow_control::stop() the body's result is emitted as an item and no end of input is signalled");
+    } else { void *r = cf_inout_call(F, in);
+        OBLIGATION(g_body_calls == 1 && (r == NULL) == g_body_stops, "C07.end: a filter that is input and output at once returns no item exactly when its body called flow_control::stop()");
+    }
+    VACUITY_END();
+}
+/* ---------------- operator&: the filter expression tree ---------------- */
+static struct filter_node g_nodes[2]; static int g_new_nodes;
+#include "fnode.inc"
+static struct filter_node *NEW_filter_node(struct filter_node *x, struct filter_node *y) { struct filter_node *n = &g_nodes[g_new_nodes++]; filter_node_ctor2(n, x, y); return n; }
+void h_and(void) {
+    struct filter l, r; struct filter_node a, b; a.left = nondet_ptr(); a.right = nondet_ptr(); b.left = nondet_ptr(); b.right = nondet_ptr();
+    l.my_root = &a; r.my_root = nondet_bool() ? &b : &a;          /* operands are non-empty filters (documented precondition, asserted by the operator); f & f is allowed */
+    struct filter_node a0 = a, b0 = b;
+    struct filter_node *n = filter_and(&l, &r);
+    OBLIGATION(g_new_nodes == 1 && n == &g_nodes[0], "C07.chain: l & r builds exactly one new node");
+    OBLIGATION(n->left == l.my_root && n->right == r.my_root, "C07.chain: the node built for l & r has l's tree as its left child and r's tree as its right child (so fill_pipeline lists l's filters before r's)");
+    OBLIGATION(a.left == a0.left && a.right == a0.right && b.left == b0.left && b.right == b0.right, "C07.chain: the operand trees are not modified");
+    VACUITY_END();
+}
+#endif
+#endif
